@@ -428,3 +428,20 @@ func appendedTo(fn *ssa.Function, f *types.Var, v ssa.Value) bool {
 	}
 	return ok
 }
+
+// ruleEpochTrimAtRecovery (part of R05.5, shared with C02): when a log is opened the epoch cache is trimmed to exactly the
+// recovered log: entries starting at or beyond the next assignable offset go, the earliest entry moves to the oldest offset.
+func ruleEpochTrimAtRecovery(c *eng.Ctx) {
+	fn := c.Fn(cl + "New")
+	if fn == nil {
+		return
+	}
+	clr := eng.CallsIn(fn, cl+"leaderEpochCache.ClearLatest")
+	cle := eng.CallsIn(fn, cl+"leaderEpochCache.ClearEarliest")
+	if len(clr) != 1 || len(cle) != 1 {
+		c.Unresolved("ClearLatest / ClearEarliest in commitlog.New")
+		return
+	}
+	c.Check(eng.Call(-1, cl+"segment.NextOffset")(clr[0].Common().Args[1]), "epoch cache trimmed at the recovered log end", c.Pos(clr[0].(ssa.Instruction)), "ClearLatest(activeSegment().NextOffset())", "ClearLatest at open is not given the next assignable offset: an epoch that a newly elected leader recorded before writing its first message (start = next offset) is dropped on every reopen, or entries beyond the log survive")
+	c.Check(eng.Call(-1, cl+"commitLog.OldestOffset")(cle[0].Common().Args[1]), "epoch cache trimmed at the recovered log start", c.Pos(cle[0].(ssa.Instruction)), "ClearEarliest(OldestOffset())", "ClearEarliest at open is not given the recovered oldest offset")
+}
